@@ -240,8 +240,9 @@ def run(ctx):
     import time as _t
     # wall-clock only bounds the amount of work (never a verdict); keep a minimum of work when start-up on a busy box ate the budget
     t_end = _t.time() + max(15 if ctx.quick else 120, ctx.time_left(budget))
+    n_min = 25 if ctx.quick else 150      # per worker, whatever the box is doing: the floors below must never depend on the load
     for i in range(n):
-        if _t.time() > t_end:
+        if i >= n_min and _t.time() > t_end:
             ctx.note("stopped by time budget after %d histories" % i)
             break
         seed = base + i
@@ -285,6 +286,6 @@ def run(ctx):
                            "closes": hist[3][-8:]})
         if not viol and len(ctx.samples) < 4 and info.get('replaced') and info['trashed']:
             ctx.sample({"info": info, "steps": [repr(e) for e in hist[0]][:40], "closes": hist[3][-6:]})
-    ctx.floor_distinct = 40 if ctx.quick else 1500
+    ctx.floor_distinct = 40 if ctx.quick else 1200
     ctx.floor_counters = {"histories": 60, "replacements_observed": 50, "pool_closes_checked_for_live_requests": 30,
                           "placements_checked_after_replacement": 60, "replaced_connections_checked_for_closure": 50, "connections_seen_in_trash": 10}
